@@ -53,7 +53,12 @@ def subLoop (etype : Ty) : List Ty → List Ty → FR (List Ty)
   | [], acc => .ok acc
   | c :: cs, acc =>
     if beq etype c then subLoop etype cs acc
-    else FR.ofRes (isSubtype c etype) (subLoop etype cs (addTy acc c)) (subLoop etype cs acc)
+    else match isSubtype c etype with
+      | .yes => subLoop etype cs (addTy acc c)
+      | .no => subLoop etype cs acc
+      | .typeError => .typeError
+      | .attrError => .attrError
+      | .fuel => .fuel
 
 /-- the set comprehension `{st for st in t_set if st.is_subtype(bound)}` -/
 def boundFilter (bound : Ty) : List Ty → FR (List Ty)
@@ -138,10 +143,18 @@ def irrelevantNominal (anyT : Ty) (etype : Ty) (types sups subs : List Ty) : Lis
 
 /-! ## result checkers (the property, for one answer) -/
 
+/-- the fuel the checkers give the decider.  A constant: the size-based fuel of `isSubDTop`
+    walks the types as trees, which is exponential in the nesting of stored supertypes; every
+    step of a derivation the decider finds costs one unit (one per skipped stored supertype). -/
+def judgeFuel : Nat := 64
+
+/-- the judge of the checkers: the declarative decider with `judgeFuel` -/
+def subJ (B : List Ty) (s t : Ty) : Bool := isSubD B judgeFuel s t
+
 /-- one returned type: on the right side of the query in the declarative relation, and not a
     bare constructor when concrete types were requested -/
 def resultOK (B : List Ty) (getSub concreteOnly : Bool) (etype r : Ty) : Bool :=
-  (if getSub then isSubDTop B r etype else isSubDTop B etype r) && (!concreteOnly || !r.isTCon)
+  (if getSub then subJ B r etype else subJ B etype r) && (!concreteOnly || !r.isTCon)
 
 /-- is the inclusion of the query itself demanded to be exactly `includeSelf`?  Not when the
     query is a bare constructor that `concrete_only` instantiates, and not when the greatest
@@ -149,7 +162,7 @@ def resultOK (B : List Ty) (getSub concreteOnly : Bool) (etype r : Ty) : Bool :=
 def selfDemanded (B : List Ty) (getSub concreteOnly : Bool) (bound : Option Ty) (etype : Ty) : Bool :=
   !(concreteOnly && etype.isTCon) &&
   (match getSub, bound with
-   | false, some b => isSubDTop B etype b
+   | false, some b => subJ B etype b
    | _, _ => true)
 
 /-- the answer of `find_subtypes` (`getSub`) / `find_supertypes` satisfies the property -/
@@ -174,7 +187,7 @@ def irrelevantOK (B : List Ty) (anyT : Ty) (etype : Ty) (r : Option Ty) : Bool :
     | none => true
     | some x =>
       let tgt := irrTarget anyT etype
-      !x.isTCon && !(isSubDTop B x tgt) && !(isSubDTop B tgt x)
+      !x.isTCon && !(subJ B x tgt) && !(subJ B tgt x)
 
 end Find
 end Heph
